@@ -15,6 +15,32 @@ NEEDS = {
  "C15-c": ("SENTSINCE compares instants instead of the header's calendar day", "a Date header with a non-zero offset whose local day differs from its UTC day, searched at that boundary"),
  "C15-d": ("TEXT lower-cases the search string before charset-decoding it", "TEXT with CHARSET ISO-8859-1 and a non-ASCII string"),
 
+ "C02-c": ("a flag change made in another mailbox clears this mailbox's \\Deleted in the session's snapshot", "the same message in mailboxes A and B, a long-lived session on B whose copy is \\Deleted, a STORE without \\Deleted by a session on A"),
+ "C02-d": ("MessageMailboxesUpdated queues its flag updates before its mailbox updates", "one connector update that files a message into a mailbox a session has selected and changes its flags at once"),
+ "C04-c": ("RENAME INBOX gives the new mailbox INBOX's UIDVALIDITY", "RENAME INBOX x; DELETE x; RENAME INBOX x (or CREATE x; DELETE x; RENAME INBOX x)"),
+ "C04-d": ("COPYUID lists sequence numbers as the source UIDs", "a COPY / UID COPY in a mailbox with a UID gap below the copied messages"),
+ "C05-c": ("an EXPUNGE responder is only held back when its message is already in the snapshot at scan time", "a message arrives in and is removed from the selected mailbox between two commands, then FETCH / STORE / SEARCH"),
+ "C05-d": ("MOVE flushes with EXPUNGE permitted only when something was moved", "a MOVE naming only messages that another session already removed"),
+ "C10-c": ("the SEARCH CHARSET of one command sticks to the following SEARCH commands of the connection", "two SEARCH commands on one connection, the first with CHARSET"),
+ "C10-d": ("the overflow guard of ParseNumber refuses the ten highest 32-bit values", "a number in 4294967286..4294967295 (UID range end, partial, LARGER/SMALLER)"),
+ "C11-c": ("a refused SEARCH decrements the process-wide active-search counter without having incremented it", "one SEARCH refused inside Mailbox.Search (out-of-range number, undecodable string) followed by any SEARCH: integer divide by zero, the process dies"),
+ "C11-d": ("EOF counts as comment text in the RFC 5322 parser", "an address or Date header value that ends inside an open comment: the parser spins for ever"),
+ "C12-c": ("a multipart section is scanned to the end of the whole message instead of its own end", "a multipart nested in a multipart whose own closing delimiter is missing"),
+ "C12-d": ("the literal size of an IMAP string is computed before NUL bytes are stripped", "a header value that decodes (RFC 2047 / RFC 2231) to both a line break and a NUL"),
+ "C13-c": ("a re-downloaded literal is written back to the store without the ID header", "the store file of a message is lost, a FETCH downloads it again, then any further FETCH"),
+ "C13-d": ("RFC822.SIZE of a message imported out of the recovery mailbox is taken before the ID header is added", "an APPEND the remote rejects, then COPY/MOVE of the message out of the recovery mailbox"),
+ "C16-c": ("the upper end of a UID range is searched as uidHi+1, which wraps at 2^32", "a UID range with the bound 4294967295"),
+ "C16-d": ("SEARCH checks the lower instead of the upper end of a sequence range against EXISTS", "a SEARCH sequence-set key with a range straddling EXISTS"),
+ "C17-c": ("RENAME INBOX does not count the mailbox it creates against the limit", "RENAME INBOX x with the mailbox count at the maximum"),
+ "C17-d": ("the UID limit check compares the current UID, not the UIDs the operation hands out", "a multi-message COPY/MOVE/connector batch into a mailbox whose UIDs are ahead of its count"),
+ "C18-c": ("the login jail is awaited only by failing attempts", "three failed LOGINs, then a correct LOGIN within the jail time"),
+ "C18-d": ("a failed EXAMINE keeps the previously selected mailbox selected", "SELECT a, EXAMINE nosuch (NO), then a selected-state command"),
+ "C19-c": ("the response channel is no longer drained after a failed write", "a connection reset in the middle of a long response stream (FETCH of many large messages)"),
+ "C19-d": ("the IDLE channel is closed only when the callback returns no error", "an unparsable line instead of DONE during IDLE"),
+ "C20-c": ("a recovered message the remote de-duplicates on MOVE is not added to the destination", "a rejected APPEND, the same message accepted elsewhere, then MOVE out of the recovery mailbox with a remote that answers with the known message"),
+ "C20-d": ("the recovery mailbox is listed while it holds a \\Recent message rather than any message", "a rejected APPEND, a SELECT of the recovery mailbox (clears \\Recent), then LIST"),
+
+
  "C01-a": ("STORE FLAGS (replace) stores one shared flag set in several sessions' snapshots", "two sessions with the mailbox selected, the message not \\Recent in them, a replacing STORE, then another session's FETCH that sets \\Seen: the first session's view changes without a FETCH response"),
  "C01-b": ("untagged responses buffered during IDLE are dropped when DONE arrives before the next bulk tick", "IDLE with bulking, an update applied during IDLE, DONE before the next tick"),
  "C02-a": ("pending responders survive a mailbox switch", "an update for mailbox A applied to a session between two commands, then SELECT of B before any flush"),
